@@ -282,7 +282,7 @@ func c01Run(ci any) Result {
 		Ops: wJoin(rTableWire(c.Routes), wStr(c.Req.Method), wStr(c.Req.Path), wInt(rMaxParam(c.Routes)), "0"),
 		// "TI1 RS1": the tree the model builds for this table must satisfy the invariant of the refinement
 		// theorem and represent exactly the registered entries (checked by the driver for every table)
-		Obs: cur.wire() + " // " + c01SpecWire(cur) + " // TI1 RS1 " + map[bool]string{true: "WF1", false: "WF0"}[wf],
+		Obs: cur.wire() + " // " + c01SpecWire(cur) + " // TI1 RS1 " + map[bool]string{true: "WF1", false: "WF0"}[wf] + " " + map[bool]string{true: "WE1", false: "WE0"}[!rColonClash(c.Routes) && !rHasTextAfterStar(c.Routes)],
 	}
 	if !rHasTextAfterStar(c.Routes) {
 		res.Oracle = c01Oracle(c.Routes, c.Req, cur)
@@ -547,7 +547,7 @@ func c01RunDirect(c *c01Case, wf bool, wfTag string) Result {
 	spec := c01SpecWire(cur)
 	res := Result{
 		Ops: wJoin(rTableWire(c.Routes), wStr(c.Req.Method), wStr(c.Req.Path), wInt(rMaxParam(c.Routes)), ops),
-		Obs: cur.wire() + " // " + spec + " // TI1 RS1 " + map[bool]string{true: "WF1", false: "WF0"}[wf],
+		Obs: cur.wire() + " // " + spec + " // TI1 RS1 " + map[bool]string{true: "WF1", false: "WF0"}[wf] + " " + map[bool]string{true: "WE1", false: "WE0"}[!rColonClash(c.Routes) && !rHasTextAfterStar(c.Routes)],
 	}
 	if !rHasTextAfterStar(c.Routes) {
 		if cur.Kind == 'P' && !sized {
